@@ -2,6 +2,7 @@
 from .. import rules_pybind as RP
 from .. import rules_alias as RA
 from .. import rules_inst as RI
+from .c13 import P1_EXEMPT
 
 ID = "C04"
 EXPLANATION = (
@@ -34,4 +35,4 @@ def run(ctx, rep):
     # applied to private copies (C13/P1)
     rep.run(RI.rule_coverage, ctx, rep, "B8", min_sites=10)
     rep.run(RA.rule_mutate_only_fresh, ctx, rep, "B8", "gtwrap/template_instantiator",
-            {"instantiate_namespace": "documented in/out parameter"}, min_sites=20)
+            P1_EXEMPT, min_sites=20)
